@@ -1226,6 +1226,9 @@ class C09(Check):
                      and start_sections[op] != base]
             if base is not None and other:
                 dcls, dfield = self.diff_class(base, start_sections[other[0]])
+                # the later re-writes merely inherit this difference
+                R.violations = [v for v in R.violations
+                                if not v['sig'].startswith('fixpoint:')]
                 R.viol('routes-disagree:text:dict!=%s:%s' % (other[0], dcls),
                        'path-dict-reserialised-behave-the-same',
                        {'start': start[:500], 'dict': base[:400],
@@ -1327,9 +1330,11 @@ class C09(Check):
             names = ['a']
         names = names[:2]
         samples = case.get('samples')
-        self.reuse(R, doc, T0, names)
+        intact = self.reuse(R, doc, T0, names)
         A = self.verdicts('dict', doc, names, samples)
         damaged = self.dict_damage
+        if not intact:
+            return
         if damaged:
             # everything after the first call saw a different dictionary:
             # comparing those verdicts would only repeat this finding
@@ -1407,7 +1412,7 @@ class C09(Check):
                    {'first': list(r1)[:2], 'second': list(r2)[:2],
                     'input': T0[:500]})
         if not ok:
-            return
+            return False
         # verify_df, detect_df, verify_df with the same dictionary object
         frame = self.frames_for(names)[0][1]
 
@@ -1451,6 +1456,7 @@ class C09(Check):
         if bytes0 != bytes1:
             R.viol('file-modified-by-load', 'loading-does-not-write',
                    {'input': T0[:500]})
+        return ok
 
     # ---- rewrite histories (E3, differential) --------------------------
     def run_rewrite(self, R, case):
@@ -1487,21 +1493,30 @@ class C09(Check):
             R.ev(2, checked=1)
             R.states += 1
             ok = got == want
-            if ok and kind == 'load':
-                dc = DC()
-                dc.initialize_from_dict(json.loads(text))
-                ok = got == spec.split_fields_section(dc.to_json())[1]
-                R.ev()
             R.out('rewrite:%s:%s' % (kind, 'current' if ok else 'STALE'))
             if not ok:
-                prev = [LOAD_KINDS[k] for d, k in case['hist'][:i]]
-                R.viol('rewrite:stale:%s-after-%s' % (
-                    kind, '+'.join(sorted(set(prev))) or 'nothing'),
-                    'a-rewritten-path-loads-its-current-content',
-                    {'step': i, 'history': case['hist'],
-                     'file-now': text[:300], 'observed': got,
-                     'fresh-path': want}, {'step': i})
+                R.viol('rewrite:stale:%s' % kind,
+                       'a-rewritten-path-loads-its-current-content',
+                       {'step': i, 'history': [[d, LOAD_KINDS[k]]
+                                               for d, k in case['hist']],
+                        'file-now': text[:300], 'observed': got,
+                        'fresh-path': want}, {'step': i})
                 return
+            if kind == 'load':
+                dc = DC()
+                dc.initialize_from_dict(json.loads(text))
+                viadict = spec.split_fields_section(dc.to_json())[1]
+                R.ev()
+                if got != viadict:
+                    # not a matter of history: the path route itself reads
+                    # this content differently from the dictionary route
+                    R.viol('routes-disagree:text:dict!=path:%s' %
+                           self.diff_class(viadict, got)[0]
+                           if isinstance(got, str) else 'raises',
+                           'path-dict-reserialised-behave-the-same',
+                           {'file': text[:300], 'dict': viadict[:300],
+                            'path': got}, {'step': i})
+                    return
 
     # ---- every microsecond ---------------------------------------------
     def run_fraction(self, R, case):
